@@ -54,6 +54,8 @@ package ast
 //@ method (nl NodeList) ReaderPos() (r parsley.Pos) = nl[0].ReaderPos()
 //@   requires wfList(nl)
 
+//@ pure func ChildrenOf(n *NonTerminalNode) []parsley.Node = n.children
+
 //@ func NewNonTerminalNode(token string, children []parsley.Node, interpreter parsley.Interpreter) (n *NonTerminalNode)
 //@   requires len(children) >= 1 && forall k int :: 0 <= k && k < len(children) ==> children[k] != nil && parsley.NodeOK(children[k])
 //@   ensures  fresh(n) && n.token == token && same(n.children, children) && same(n.interpreter, interpreter) && n.schema == nil
